@@ -196,7 +196,7 @@ func runC12Race(nconn, ncalls int, ems []sx.V, D time.Duration) (r c12RaceRes) {
 
 func c12RaceRobust(nconn, ncalls int, ems []sx.V, D time.Duration) c12RaceRes {
 	var r c12RaceRes
-	for try := 0; try < 4; try++ {
+	for try := 0; try < 6; try++ {
 		r = runC12Race(nconn, ncalls, ems, D)
 		lost := false // an answer that missed the deadline: decide with a longer deadline
 		for _, f := range r.fails {
@@ -353,6 +353,12 @@ func runC12Seq(nconn int, acts []sx.V, D time.Duration) (r c12SeqRes) {
 			r.bad = "hang"
 			return c12Other
 		}
+		if !got && c.class() == c12Timeout {
+			// sent into the void, or a server goroutine that was not scheduled in time?
+			if c12Wait(300*time.Millisecond, func() bool { _, ok := e.srv.query(c.key); return ok }) {
+				r.slow = true
+			}
+		}
 		switch c.class() {
 		case c12Timeout:
 			if answered {
@@ -456,7 +462,7 @@ func c12Status(c *liteclient.Connection) (liteclient.ConnectionStatus, bool) {
 
 func c12SeqRobust(nconn int, acts []sx.V, D time.Duration) c12SeqRes {
 	var r c12SeqRes
-	for try := 0; try < 4; try++ {
+	for try := 0; try < 6; try++ {
 		r = runC12Seq(nconn, acts, D)
 		if !r.slow || r.bad != "" {
 			return r
@@ -472,6 +478,16 @@ const c12SeqD = 60 * time.Millisecond
 func execC12Seq(in sx.V) sx.V {
 	if v, ok := c12Cache.Load("c12.seq " + in.String()); ok {
 		return v.(sx.V)
+	}
+	if acts := in.List[1].List; len(acts) == 1 && acts[0].Head() == "alive" {
+		_, fails, bad := runC12Alive(acts[0].List[1].I())
+		if bad != "" {
+			return sx.L(sx.A("harness-error"), sx.Str(bad))
+		}
+		if len(fails) > 0 {
+			return sx.L(sx.A("violation"), sx.Str(fails[0].key))
+		}
+		return sx.A("accept")
 	}
 	r := c12SeqRobust(in.List[0].I(), in.List[1].List, c12SeqD)
 	if r.bad != "" {
